@@ -438,8 +438,12 @@ func (c *Ctx) closureOf(t Term, env map[types.Object]Term) (*ast.FuncLit, map[ty
 	if md == nil || md.Body == nil || md.Recv == nil || len(md.Recv.List) != 1 || len(md.Recv.List[0].Names) != 1 {
 		return nil, nil, nil
 	}
-	if _, isPtr := c.typeOf(md.Recv.List[0].Type).(*types.Pointer); !isPtr {
-		return nil, nil, nil // a value receiver works on a copy: nothing it assigns reaches the caller
+	if rt := c.typeOf(md.Recv.List[0].Type); rt != nil {
+		_, isPtr := rt.(*types.Pointer)
+		_, isMap := rt.Underlying().(*types.Map)
+		if !isPtr && !isMap {
+			return nil, nil, nil // a value receiver works on a copy: nothing it assigns reaches the caller (a map is a reference: its entries do)
+		}
 	}
 	ne := copyEnv(env)
 	if ne == nil {
